@@ -9,7 +9,7 @@ Ltac bools :=
   | H : _ && _ = true |- _ => apply andb_true_iff in H; destruct H
   end.
 
-Lemma eqb2_ok (a b : ref) : eqb2 a b = true <-> a = b.
+Lemma eqb2_ok (a b : oref) : eqb2 a b = true <-> a = b.
 Proof.
   destruct a as [i x], b as [j y]. unfold eqb2; cbn. rewrite andb_true_iff, !Nat.eqb_eq.
   split; [intros [-> ->]; reflexivity|intros [= -> ->]; auto].
@@ -30,7 +30,7 @@ Proof. induction a; cbn; auto; now rewrite ?IHa, ?IHa2. Qed.
 
 Section Same.
 Variable i : nat.
-Notation g := (pair i : nat -> ref).
+Notation g := (pair i : nat -> oref).
 
 Lemma allacc_same P f (k : code nat) : allacc eqb2 P (i, f) (cmap g k) = allacc Nat.eqb P f k.
 Proof. induction k; cbn [cmap allacc]; auto; rewrite ?eqb2_same, ?IHk, ?IHk1, ?IHk2; reflexivity. Qed.
@@ -49,7 +49,7 @@ End Same.
 Section Foreign.
 Variables i j : nat.
 Hypothesis Hji : j <> i.
-Notation g := (pair j : nat -> ref).
+Notation g := (pair j : nat -> oref).
 
 Lemma allacc_foreign P f (k : code nat) : allacc eqb2 P (i, f) (cmap g k) = true.
 Proof. induction k; cbn [cmap allacc]; auto; rewrite ?(eqb2_diff _ _ _ _ Hji), ?IHk, ?IHk1, ?IHk2; reflexivity. Qed.
@@ -89,7 +89,7 @@ Lemma prog_pure prog : from_facts U prog -> pure_prog prog.
 Proof. intros H k Hk. destruct (H _ Hk) as (cs & Hc & ->). now apply thread_pure. Qed.
 
 (* a checker that holds of every summary holds of every thread, at every instance *)
-Lemma lift (chkN : code nat -> bool) (chkR : code ref -> bool) i :
+Lemma lift (chkN : code nat -> bool) (chkR : code oref -> bool) i :
   (forall a b, pure a = true -> chkR a = true -> chkR b = true -> chkR (capp a b) = true) ->
   chkR CNil = true ->
   (forall u, chkR (inst i u) = chkN u) ->
@@ -190,9 +190,9 @@ Proof.
   assert (Hd : forall k, In k prog -> dl eqb2 (rk2 rk) (rk2 rk) [] k = true).
   { intros k Hk. destruct (Hp _ Hk) as (cs & Hc & ->). now apply thread_dl. }
   split; [|split].
-  - exact (no_lock_deadlock ref eqb2 eqb2_ok (rk2 rk) (rk2 rk) prog sched Pp Hd).
-  - exact (chan_wait_holds_nothing ref eqb2 eqb2_ok (rk2 rk) (rk2 rk) prog sched Pp Hd).
-  - exact (lock_deadb_false ref eqb2 eqb2_ok (rk2 rk) (rk2 rk) prog sched Pp Hd).
+  - exact (no_lock_deadlock oref eqb2 eqb2_ok (rk2 rk) (rk2 rk) prog sched Pp Hd).
+  - exact (chan_wait_holds_nothing oref eqb2 eqb2_ok (rk2 rk) (rk2 rk) prog sched Pp Hd).
+  - exact (lock_deadb_false oref eqb2 eqb2_ok (rk2 rk) (rk2 rk) prog sched Pp Hd).
 Qed.
 
 End Table.
